@@ -69,6 +69,10 @@ CHECKS = {
    technique="TLA+ spec JSVM.tla (VM pool, set/run/delete/put protocol, node-JSON cache under node mutation, value-mapping table) model-checked by TLC over all interleavings of 2 goroutines; real calls observed through the verif VM hook and probe scripts are trace-validated by TLC (Trace_JSVM.tla); the mapping table is replayed",
    text="TLC explores every interleaving of two goroutines making two calls each on two pooled VMs and checks that at run time a VM's user globals are exactly the running call's arguments, that a VM has a single owner and returns clean. The code is bound by recording get/run/put of every pooled VM (identity, argument names, globals actually present) during hundreds of sequential and concurrent calls with random argument sets plus probe-script observations, _node probes on recreated and on mutating nodes, and the value-mapping table with several scripts per kind; TLC validates every event. Known finding: stale _node on an ancestor.",
    note="Trusted: TLC, goja. VM reuse is required to be observed (else exit 2). Scripts assigning globals are excluded."),
+ "C19": dict(cat="exploration", design="5/C19",
+   technique="TLA+ spec DateTime.tla (overwrite/convert decision table of parseDateTime; proleptic-Gregorian calendar with instants as (day, second)) checked by TLC; its 16 table rows are concretised by the driver and every call of the four functions is trace-validated by TLC (Trace_DateTime.tla) with the specification's own calendar",
+   text="TLC enumerates the decision table and checks the calendar anchors; the driver concretises every row for a boundary grid of instants (years 1-9999) plus random ones, 38 IANA zones and the smart parser's advertised layouts, and records inputs, tz-database offsets and outputs as small integers; TLC checks instant preservation, wall-clock preservation when no zone is involved, output offsets, Unix time in both units and the inverse, empty->empty and unparsable->error. Numeric fidelity is the weak end of TLA+; instants beyond the grid are sampled.",
+   note="Trusted: TLC, Go's time package and the tz database for offsets and for parsing the functions' RFC 3339 output. LMT-era second-granular offsets are excluded."),
 }
 
 def main():
